@@ -183,11 +183,18 @@ def rule_r4(ctx) -> List[R.Inst]:
     return out
 
 
+def rule_dep(ctx):
+    """obligations inherited from shared code reached through the call graph (sa/props/deps.py)"""
+    from .deps import dep_insts
+    return dep_insts(ctx, "C15", ENTRIES, skip_groups=())
+
+
 SPECS = [
     RuleSpec("C15.R1", rule_r1, 8, "A5", "positional pairing only between equally ordered sequences"),
     RuleSpec("C15.R2", rule_r2, 15, "A5", "order-dependent reductions only on sorted (or order-free) data"),
     RuleSpec("C15.R4", rule_r4, 3, "A5", "id schemes enumerated on two sides run over one list in one order (BMS tempo ids)"),
     RuleSpec("C15.R3", rule_r3, 1, "A4", "converters copy columns by position, never by row label"),
+    RuleSpec("C15.D", rule_dep, 1, "M0", "rules of the shared code (timing engine, list classes, stacker) that the operations of this property reach"),
 ]
 
 META = dict(
